@@ -830,6 +830,42 @@ class Prop(object):
         ua |= Packet(bytearray(wire.packet(17, octets)))
         A.attach(ua, tpub)
         tags = {'mut': 'subject', 'grp': 'type-confusion'}
+        # user attributes holding several subpackets: the whole packet body is what is certified - a certification over one attribute is none over
+        # an attribute that shares only its first (or only some) subpackets
+        one = lambda t, body: wire.sub_len_encode(len(body) + 1) + bytes([t]) + body
+        im1 = b'\x10\x00\x01\x01' + bytes(12) + S.JPEG
+        im2 = b'\x10\x00\x01\x01' + bytes(12) + S.JPEG[:-2] + b'other' + S.JPEG[-2:]
+        bodies = {'image': one(1, im1), 'image+private': one(1, im1) + one(100, b'private use'), 'image+other-private': one(1, im1) + one(100, b'private usf'),
+                  'image+image2': one(1, im1) + one(1, im2), 'private+image': one(100, b'private use') + one(1, im1), 'image+private+image2': one(1, im1) + one(100, b'private use') + one(1, im2)}
+
+        def attr(body):
+            a = pgpy.PGPUID()
+            a |= Packet(bytearray(wire.packet(17, body)))
+            A.attach(a, tpub)
+            return a
+        for bname, bbody in bodies.items():
+            try:
+                base = attr(bbody)
+                sig = key.certify(base, level=SignatureType.Generic_Cert, hash=HashAlgorithm.SHA256, created=K.dt(S.SIG_T))
+                pk = bytes(sig.__bytearray__())
+            except Exception:
+                r.outcomes['base:attribute-not-accepted'] += 1
+                continue
+            v0 = self._verdict(pub, base, pk)
+            r.states += 1
+            r.transitions += 1
+            r.outcomes['base:' + v0] += 1
+            if v0 != 'truthy':
+                r.viol('base-rejected', {'scn': 'multi-attribute'}, case, 'certification over the attribute %s does not verify over it: %s' % (bname, v0))
+                continue
+            ok, why = rsig.verify(rsig.parse_body(wire.read_packet(pk)['body'], strict=False), {'key': rkeys.public_body(traw), 'uat': bbody}, raw)
+            if not ok:
+                r.viol('base-rejected', {'scn': 'multi-attribute', 'by': 'reference'}, case, 'certification over the attribute %s is rejected by the reference: %s' % (bname, why))
+            for oname, obody in bodies.items():
+                if oname == bname:
+                    continue
+                self._judge(r, 'different', self._verdict(pub, attr(obody), pk), {'mut': 'subject', 'grp': 'multi-attribute'}, dict(case),
+                            'certification by %s over the attribute %s presented for the attribute %s' % (signer, bname, oname))
         for base, twin, nm in ((uid, ua, 'uid->attribute-with-same-octets'), (ua, uid, 'attribute->uid-with-same-octets')):
             sig = key.certify(base, level=SignatureType.Generic_Cert, hash=HashAlgorithm.SHA256, created=K.dt(S.SIG_T))
             pk = bytes(sig.__bytearray__())
